@@ -1182,6 +1182,44 @@ func vrCaseMixedMult(c *vrCase) {
 		}
 		one(vrRandScalar32(c.rng), a, vrRandScalar32(c.rng))
 	}
+	// histories: a point object is used, then overwritten in place with another point (SetBytes) and used again, then
+	// the first point is used through a fresh object - every call must depend on the current value of its argument only
+	for h := 0; h < 6; h++ {
+		_, a := pl.pick(c.rng)
+		_, b := pl.pick(c.rng)
+		obj := vrMk(a, big.NewInt(1))
+		g, s := vrRandScalar32(c.rng), vrRandScalar32(c.rng)
+		if h%2 == 0 {
+			s = small(int64(1 + 2*h)) // digits +-1 of the recoding use the caller's own point
+		}
+		step := func(p *SM2Point, cur vrPt, tag string) {
+			w := vrAddPt(vrMulPt(new(big.Int).SetBytes(g), vrG), vrMulPt(new(big.Int).SetBytes(s), cur))
+			want := vrEnc(w)
+			in := fmt.Sprintf(`{"history":"%s","g":"%s","P":"%s","s":"%s"}`, tag, vrHex(g), vrPS(cur), vrHex(s))
+			var q *SM2Point
+			var err error
+			if pn := vrTry(func() { q, err = ScalarMixedMult_Unsafe(g, p, s) }); pn != "" || err != nil || q == nil {
+				c.check(false, in, fmt.Sprintf("%serr=%v", pn, err), vrHex(want))
+				return
+			}
+			got := q.Bytes()
+			c.check(bytes.Equal(got, want), in, vrHex(got), vrHex(want))
+		}
+		step(obj, a, "1: A through obj")
+		if _, err := obj.SetBytes(vrEnc(b)); err != nil {
+			continue
+		}
+		if h%2 == 0 {
+			// A again right after obj was overwritten, before any call under B
+			step(vrMk(a, big.NewInt(1)), a, "2: A through a fresh affine object, obj now holds B")
+			step(obj, b, "3: B through obj")
+		} else {
+			step(obj, b, "2: obj overwritten with B")
+			step(vrMk(a, big.NewInt(1)), a, "3: A through a fresh affine object")
+		}
+		step(vrMk(a, vrLambda(c.rng)), a, "4: A through a fresh projective object")
+		step(obj, b, "5: B through obj again")
+	}
 }
 
 // ---------------------------------------------------------------- cases: bit extraction, selection, tables
